@@ -185,6 +185,9 @@ def gen_op(rng, prof, R):
             stars = rng.choice([0, 1, 2])
             n = rng.randint(0, prof.get("maxitems", 5))
             items = "".join(("1" if stars and rng.random() < 0.15 else "0") for _ in range(n)) or "-"
+            if items != "-" and stars and rng.random() < prof.get("empty_elems", 0.0):
+                # some elements are empty: `()` for starmap, `{}` for doublestarmap (func is then called without arguments)
+                items = "".join(("3" if c == "0" and rng.random() < 0.5 else c) for c in items)
             if items != "-" and rng.random() < prof.get("iter_raise", 0.0):
                 k = rng.randrange(len(items))       # the iterator raises at position k: nothing after it is ever reached
                 items = items[:k] + "2" + items[k + 1:]
